@@ -14,10 +14,10 @@ ASSUMPTIONS = ["oracle = the input rows themselves; geometry = exclusive prefix 
                "save/load is exercised as a round trip through a per-run temp directory only"]
 REQUIRED_FEATURES = ["empty_row_first", "empty_row_last", "consecutive_empty_rows", "all_rows_empty", "zero_rows",
                      "mismatch_rejected", "numpy_roundtrip", "offsets_form", "long_repr", "non_rectangular_refused", "non_contiguous_input"]
-BOUNDS = {"quick": "LV(4,3) x 9 dtypes x 2 value patterns x 4 constructors, all readers; size mismatch -1,+1,0,2x; "
+BOUNDS = {"quick": "LV(4,3) x 9 dtypes x 2 value patterns x 5 constructors, all readers; size mismatch -1,+1,0,2x; "
                    "from/to_numpy_array for n,m<=4 x 9 dtypes; one array of 120 cells (long repr branch)",
-          "thorough": "LV(5,3) u LV(3,5) x 9 dtypes x 3 patterns x 4 constructors; numpy round trip n,m<=5"}
-CTORS = ["flat_lens", "flat_shape", "rows_np", "rows_py_dtype"]
+          "thorough": "LV(5,3) u LV(3,5) x 9 dtypes x 3 patterns x 5 constructors; numpy round trip n,m<=5"}
+CTORS = ["flat_lens", "flat_shape", "rows_np", "rows_py_dtype", "flat_shape_tuple"]
 
 
 def shards(tier):
@@ -80,6 +80,8 @@ def _build(ctor, flat, lens, dt):
         return RaggedArray(flat.copy(), list(lens))
     if ctor == "flat_shape":
         return RaggedArray(flat.copy(), RaggedShape(list(lens)))
+    if ctor == "flat_shape_tuple":
+        return RaggedArray(flat.copy(), (len(lens), np.array(lens, dtype=int)))      # the (n_rows, row lengths) form that ra.shape has
     if ctor == "rows_np":
         return RaggedArray([r.copy() for r in rows_np])
     if ctor == "rows_py_dtype":
